@@ -412,8 +412,18 @@ Unbind ==
   /\ last' = Obs("unbind", "ok", 0)
   /\ UNCHANGED <<exists, frames, pend, wal, hdl, snap, pins, noAuto, cpe, acked>>
 
-BeginBatch(na) == /\ hdl = "rw" /\ noAuto' = na /\ last' = Obs("begin_batch", "ok", 0)
-                  /\ UNCHANGED <<exists, frames, pend, wal, hdl, snap, dirty, pins, ticket, cpe, acked>>
+RECURSIVE Pow2AtLeast(_, _)
+Pow2AtLeast(p, n) == IF p >= n THEN p ELSE Pow2AtLeast(2 * p, n)
+\* begin_batch(options): with wal_pre_size_bytes above the current region size the log region is grown at once to the next
+\* power of two (data shifted, TOC and header rewritten, the log reopened: pending records stay pending)
+BeginBatchPre(na, presize) ==
+  /\ hdl = "rw" /\ noAuto' = na /\ last' = Obs("begin_batch", "ok", 0)
+  /\ IF presize > wR
+       THEN /\ wR' = Pow2AtLeast(1, presize) /\ wapc' = 0 /\ ticket' = Persist(ticket)
+            /\ UNCHANGED <<wh, wpb, wseq, wcseq>>
+       ELSE UNCHANGED <<wal, ticket>>
+  /\ UNCHANGED <<exists, frames, pend, hdl, snap, dirty, pins, cpe, acked>>
+BeginBatch(na) == BeginBatchPre(na, 0)
 EndBatch == /\ hdl = "rw" /\ noAuto' = FALSE /\ last' = Obs("end_batch", "ok", 0)
             /\ UNCHANGED <<exists, frames, pend, wal, hdl, snap, dirty, pins, ticket, cpe, acked>>
 
